@@ -92,6 +92,8 @@ func StructConfigs(thorough bool, caches []string, formats []string) []*world.Co
 	// values with indirection
 	cs = append(cs, world.IntCfg(2, []int{1, 2, 3, 4, 8}, []interface{}{[]int{1}, []int{2, 3}}, []int{}, f0, "none"))
 	cs = append(cs, world.StringCfg(2, []uint8{0, 1, 0, 2, 0}, f0, "none"))
+	// the same family of strings at another branch factor, after the one above (a layer must not be remembered across branch factors)
+	cs = append(cs, world.StringCfg(4, []uint8{0, 0, 1, 0, 0, 0}, f0, "none"))
 	cs = append(cs, world.BytesCfg(2, []uint8{0, 1, 0, 2, 0}, formats[len(formats)-1], "none"))
 	cs = append(cs, world.StructCfg(2, []uint8{0, 1, 0, 2, 0}, formats[len(formats)-1], "none"))
 	cs = append(cs, world.IntCfg(2, []int{-4, -2, -1, 0, 1, 2, 4}, []interface{}{"a"}, "", f0, "none"))
@@ -271,6 +273,9 @@ func C05ExtraConfigs(thorough bool) []*world.Config {
 	nv := world.IntCfg(2, []int{1, 2, 3, 4, 8}, []interface{}{nil}, nil, B, "none")
 	nv.RegisteredTypes = true
 	cs = append(cs, nv)
+	// pointer-typed values, a nil pointer among them, in both formats
+	cs = append(cs, world.IntCfg(2, []int{1, 2, 3, 4}, []interface{}{&world.SVal{Asdf: "a", Q: true}, (*world.SVal)(nil)}, &world.SVal{}, M, "none"))
+	cs = append(cs, world.IntCfg(4, []int{1, 2, 3, 4, 8}, []interface{}{(*world.TVal)(nil), &world.TVal{Tags: []string{"y", "z"}}}, &world.TVal{}, B, "none"))
 	// bodies longer than 127 bytes (two-byte length prefixes) and a node with more than 127 entries
 	long := strings.Repeat("0123456789", 30)
 	cs = append(cs, world.IntCfg(2, []int{1, 2, 3, 4}, []interface{}{long, "s"}, "", B, "none"))
@@ -302,6 +307,11 @@ func C13Configs(thorough bool) []*world.Config {
 	// slice values: re-inserting an equal value must be recognised as "nothing modified"
 	cfgs = append(cfgs, world.IntCfg(2, []int{1, 2, 3, 4}, []interface{}{[]int{1}, []int{2, 3}}, []int{}, M, "none"))
 	cfgs = append(cfgs, world.IntCfg(2, []int{1, 2, 4}, []interface{}{[]byte(nil), []byte{}}, []byte{}, B, "none"))
+	// the registered-types decoder (custom marshaler) has its own way of marking decoded nodes clean
+	tgc := world.UintCfg(2, urange(1, 4), 2, M, "none")
+	tgc.Tagged = true
+	tgc.Name = "tagged/" + tgc.Name
+	cfgs = append(cfgs, tgc)
 	cfgs = append(cfgs, world.WithTwoSlots(world.UintCfg(2, ulist(1, 2, 3, 4), 1, B, "none"), 5))
 	cfgs = append(cfgs, world.WithTwoSlots(world.UintCfg(2, ulist(1, 2, 4), 1, M, "big"), 5))
 	cfgs = append(cfgs, world.WithFlushFaults(world.UintCfg(2, urange(1, 4), 1, B, "none")))
